@@ -391,6 +391,40 @@ def run(ck: Check) -> int:
         finally:
             shutil.rmtree(tmp, ignore_errors=True)
     ck.search('list-decomposition-realpath', s_real)
+
+    def s_split_hist(sr):
+        # SPLIT in a history that mixes the two platform styles: under Windows rules an escaped backslash inside `[...]` abandons the
+        # bracket (so a following `|` splits), under Unix rules it does not — each call is judged by its own style whatever was split before
+        # (added after seeded change C07j: `split()` memoised its pieces under a key without the platform style)
+        orc = Oracle(w, drv)
+        F = w.F
+        pats = ['[a\\\\|b]', 'x[\\\\|]y|z', '[!\\\\|a]|b', '@([a\\\\|b])|c', 'a|[b\\\\|c]', '[\\\\]|]']
+        names = ['a', 'b', 'c', '|', '\\', 'x|y', 'z', '[a\\', 'b]', 'x\\y', 'a|b', ']']
+        sr.note = (f'{len(pats)} SPLIT patterns with an escaped backslash before a `|` inside a bracket, asked alternately under FORCEWIN and FORCEUNIX '
+                   '(both orders, twice), fnmatch / filter / translate piece count: each answer = the combination of single-pattern results over the '
+                   'pieces the Lean splitter gives for THAT style')
+        for rnd in range(2):
+            for order in ((F.FORCEWIN, F.FORCEUNIX), (F.FORCEUNIX, F.FORCEWIN), (F.FORCEWIN, F.FORCEWIN, F.FORCEUNIX)):
+                for plat in order:
+                    for p_ in pats:
+                        fl = F.SPLIT | F.EXTMATCH | plat
+                        sr.evaluations += 1
+                        exp, info = orc.verdicts('fnmatch', [p_], None, fl, names)
+                        got = ''.join('1' if F.fnmatch(n, p_, flags=fl) else '0' for n in names)
+                        npieces = len(F.translate(p_, flags=fl)[0])
+                        want_pieces = len(set(info['inclusions'])) if len(info['inclusions']) < 8 else npieces
+                        if got != exp or npieces != want_pieces:
+                            bad = [n for n, a, b in zip(names, exp, got) if a != b]
+                            ck.report(Failing(f'fnmatch / translate: SPLIT pattern {p_!r} under {"Windows" if plat == F.FORCEWIN else "Unix"} rules, asked after calls under the '
+                                              f'other rules: wrong on {bad[:4]} ({npieces} pieces, the splitter model gives {want_pieces})',
+                                              {'api': 'fnmatch.fnmatch', 'patterns': [p_], 'exclude': None, 'flags': fl, 'bytes': False, 'names': names,
+                                               'history': ['FORCEWIN' if x == F.FORCEWIN else 'FORCEUNIX' for x in order], **info}, exp, got), None)
+                            sr.histogram['FAIL'] = sr.histogram.get('FAIL', 0) + 1
+                        else:
+                            sr.histogram['holds'] = sr.histogram.get('holds', 0) + 1
+        sr.distinct = len(pats) * 2
+    if drv is not None:
+        ck.search('split-style-histories', s_split_hist)
     if drv is not None:
         drv.close()
     w.close()
